@@ -750,7 +750,7 @@ func play(t *testing.T, out *vh.Out, idx int, s scenario) {
 	// drain: whatever is still parked at the end is released with the scenario's drain verdict, so that every
 	// validation finishes and is judged
 	drainV := geti(c, "drain", 2)
-	for round := 0; round < 12 && !aborted; round++ {
+	for round := 0; round < 60 && !aborted; round++ {
 		n := 0
 		d.mu.Lock()
 		if d.park != nil {
